@@ -364,6 +364,10 @@ func c06RequestSchemas() []c06schema {
 					gen.S{"a": 5.0}, gen.S{"b": "y"}, gen.S{"a": "x", "c": true}, gen.S{"b": 2.0, "c": true}, gen.S{"a": "x", "b": 1.5},
 				}
 				out = append(out, c06schema{s, vals})
+				// under every applicator: the request reading applies below them as well (also below "not", where it flips verdicts both ways)
+				out = append(out, c06schema{gen.S{"not": s}, vals}, c06schema{gen.S{"allOf": gen.Arr(s)}, vals},
+					c06schema{gen.S{"anyOf": gen.Arr(s, gen.S{"type": "integer"})}, vals}, c06schema{gen.S{"oneOf": gen.Arr(s, gen.S{"type": "integer"})}, vals},
+					c06schema{gen.S{"type": "object", "properties": gen.S{"o": gen.S{"not": s}}}, []any{gen.S{"o": gen.S{}}, gen.S{"o": gen.S{"a": "x"}}, gen.S{"o": gen.S{"b": 1.0}}, gen.S{"o": gen.S{"a": "x", "b": 1.0, "c": true}}, gen.S{}}})
 				// nested under a property and under array items
 				out = append(out, c06schema{gen.S{"type": "object", "properties": gen.S{"o": s}, "required": gen.Arr("o")},
 					[]any{gen.S{"o": gen.S{}}, gen.S{"o": gen.S{"a": "x"}}, gen.S{"o": gen.S{"b": 1.0}}, gen.S{"o": gen.S{"a": "x", "b": 1.0, "c": true}}, gen.S{}, gen.S{"o": gen.S{"a": 1.0, "b": 1.0}}}})
@@ -449,13 +453,18 @@ func c06JSON(c *core.Ctx, schema gen.S, values []any, roVariants bool) {
 		}
 		seen[vc] = true
 		body, _ := json.Marshal(v)
-		for _, os := range optSets {
-			desc := fmt.Sprintf("json schema=%s body=%s options=%s", sCanon, body, os.name)
+		for osi, os := range optSets {
+			// the declared type is selected for a header with parameters as well; the verdict is the same
+			header := "application/json"
+			if roVariants && osi == 0 && len(vc)%2 == 0 {
+				header = "application/json; charset=utf-8"
+			}
+			desc := fmt.Sprintf("json schema=%s body=%s options=%s header=%s", sCanon, body, os.name, header)
 			c.Begin(desc)
 			c.Eval()
 			o := os.o
-			verr, pi := c06Validate(router, "application/json", body, &o)
-			w := c06Witness{Part: "json", Header: "application/json", Body: string(body), Required: true, Options: os.name, Got: fmt.Sprint(verr)}
+			verr, pi := c06Validate(router, header, body, &o)
+			w := c06Witness{Part: "json", Header: header, Body: string(body), Required: true, Options: os.name, Got: fmt.Sprint(verr)}
 			w.Schema, _ = json.Marshal(schema)
 			if pi != nil {
 				c.Violate(core.PanicFeatures(pi), w, pi.Stack)
@@ -531,6 +540,9 @@ func c06FormShapes() []c06form {
 			[]gen.S{{"a": "x"}, {}}},
 		{"readonly", gen.S{"type": "object", "properties": gen.S{"id": gen.S{"type": "string", "readOnly": true}, "a": str}, "required": gen.Arr("id", "a")},
 			[]gen.S{{"a": "x"}, {"a": "x", "id": "i"}, {"id": "i"}}},
+		// a property with a default that the client leaves out: the body is valid as sent
+		{"with-default", gen.S{"type": "object", "properties": gen.S{"a": str, "lang": gen.S{"type": "string", "default": "en"}, "n": gen.S{"type": "integer", "default": 3.0, "minimum": 1.0}}, "required": gen.Arr("a")},
+			[]gen.S{{"a": "x"}, {"a": "x", "lang": "fr"}, {"a": "x", "n": 2.0}, {"a": "x", "n": 0.0}, {"lang": "fr", "n": 5.0}, {"a": "x", "lang": "fr", "n": 5.0}}},
 	}
 }
 
